@@ -174,6 +174,12 @@ func (j *Job) init() error {
 
 var Zero = time.Time{}
 
+// timeKeyFormat is the layout of the timestamps that start the keys of
+// the time index.  The index is searched in key order, so the layout
+// must have a fixed width (unlike RFC3339Nano, which drops trailing
+// zeros, so that "...:50.15Z" would sort before "...:50Z").
+const timeKeyFormat = "2006-01-02T15:04:05.000000000Z07:00"
+
 func (c *Cron) set(j *Job) error {
 
 	if j.Evict {
@@ -249,7 +255,7 @@ func (s *Cron) update(j *Job) (func(*bolt.Tx) error, error) {
 	oldTid := j.TId
 
 	next := j.at
-	ts := next.Format(time.RFC3339Nano)
+	ts := next.UTC().Format(timeKeyFormat)
 	later := next.Sub(time.Now().UTC())
 	log.Printf("Cron.update %s to %s (%v) evict=%v", j.aid, ts, later, j.Evict)
 
@@ -367,7 +373,7 @@ func (s *Cron) work(part string) func(tx *bolt.Tx) error {
 		c := tx.Bucket([]byte("time" + part)).Cursor()
 
 		min := []byte("")
-		max := []byte(time.Now().UTC().Format(time.RFC3339Nano))
+		max := []byte(time.Now().UTC().Format(timeKeyFormat))
 		limit := 10
 
 		for k, v := c.Seek(min); k != nil && bytes.Compare(k, max) <= 0; k, v = c.Next() {
